@@ -389,7 +389,7 @@ fn count_files(server: &Server) -> usize {
 
 fn pick_answer(r: &mut StdRng) -> Ans {
     match r.gen_range(0..10) {
-        0..=4 => Ans::Normal(*[200u16, 201, 302, 404, 500, 503].choose(r).unwrap()),
+        0..=4 => Ans::Normal(*[200u16, 201, 302, 404, 500, 503, 200, 302, 100, 101, 103].choose(r).unwrap()),
         5..=7 => Ans::Fetch(*[0u64, 50, 250, 1000, u64::MAX - 1, u64::MAX].choose(r).unwrap()),
         8 => Ans::Drop,
         _ => Ans::Panic,
